@@ -274,8 +274,18 @@ fn do_call(c: &Call) -> usize {
   match c.kind {
     0 => cdshealpix::nested::get_or_create(c.depth) as *const cdshealpix::nested::Layer as usize,
     1 => vh::c2v_get_or_create_addr(c.depth),
-    _ => {
+    2 => {
       let v = cdshealpix::largest_center_to_vertex_distance(c.depth, 0.3, 0.2);
+      v.to_bits() as usize
+    }
+    // the same helper at a polar-cap position off the central meridian, and the radius variant
+    // across the transition latitude (other fields of the constants than kind 2)
+    3 => {
+      let v = cdshealpix::largest_center_to_vertex_distance(c.depth, 0.1, 1.2);
+      v.to_bits() as usize
+    }
+    _ => {
+      let v = cdshealpix::largest_center_to_vertex_distance_with_radius(c.depth, 1.3, 0.7, 0.05);
       v.to_bits() as usize
     }
   }
@@ -295,6 +305,8 @@ pub fn layer_results(depth: u8) -> Value {
     "neighbours": nb.iter().map(|x| x.to_string()).collect::<Vec<_>>(),
     "cone_cells": cone.entries.len(), "cone_first": cone.entries.first().map(|x| x.to_string()),
     "c2v": format!("{:016x}", cdshealpix::largest_center_to_vertex_distance(depth, 0.3, 0.2).to_bits()),
+    "c2v_polar": format!("{:016x}", cdshealpix::largest_center_to_vertex_distance(depth, 0.1, 1.2).to_bits()),
+    "c2v_radius": format!("{:016x}", cdshealpix::largest_center_to_vertex_distance_with_radius(depth, 1.3, 0.7, 0.05).to_bits()),
   })
 }
 
@@ -638,11 +650,14 @@ pub fn run_stress(round_seed: u64, reference: Option<&str>) -> Value {
   let mut problems: Vec<String> = vec![];
   // round 1: distinct depths; round 2: three threads per depth (other depths)
   for round in 0..2usize {
-    for kind in [0u8, 2, 1] {
+    // the first use of the cell-size constants is made through a different entry point in turn
+    // (equatorial position, polar position, radius variant, direct), depending on the seed
+    let c2v_first: u8 = [2u8, 3, 4, 1][(round_seed % 4) as usize];
+    for kind in [0u8, c2v_first, 1] {
       let depths: Vec<u8> = (0..nthreads)
         .map(|t| {
           let base = if round == 0 { t } else { 15 + t / 3 };
-          (((base as u64 + round_seed) % 15) as u8 + if round == 0 { 0 } else { 15 }).min(29).max(if kind == 2 { 1 } else { 0 })
+          (((base as u64 + round_seed) % 15) as u8 + if round == 0 { 0 } else { 15 }).min(29).max(if kind >= 2 { 1 } else { 0 })
         })
         .collect();
       // spin gate (a futex barrier wakes its waiters microseconds apart: the first uses would
